@@ -20,9 +20,16 @@ type entCase struct {
 	C     int    `json:"c,omitempty"`
 	M     int    `json:"m,omitempty"`
 	Arr   string `json:"arr"` // sorted | inter | rev
+	// Poke > 0: after the arrangement, the byte at PokeAt is set to Poke-1 (content at an internal
+	// chunk boundary: adaptive codecs carry context across it)
+	Poke   int `json:"poke,omitempty"`
+	PokeAt int `json:"poke_at,omitempty"`
 }
 
 func (e entCase) String() string {
+	if e.Poke > 0 {
+		return fmt.Sprintf("%s|%d|%s|%d|%d|%d|%s|poke %d@%d", e.Codec, e.Len, e.Hist, e.K, e.C, e.M, e.Arr, e.Poke-1, e.PokeAt)
+	}
 	return fmt.Sprintf("%s|%d|%s|%d|%d|%d|%s", e.Codec, e.Len, e.Hist, e.K, e.C, e.M, e.Arr)
 }
 
@@ -101,6 +108,9 @@ func (e entCase) data() []byte {
 			}
 			out = p
 		}
+	}
+	if e.Poke > 0 && e.PokeAt < len(out) {
+		out[e.PokeAt] = byte(e.Poke - 1)
 	}
 	return out
 }
@@ -198,6 +208,15 @@ func init() {
 				if c.Thorough() && !adaptive {
 					lens = append(lens, 1<<20+5)
 				}
+				if chunk > 0 {
+					for _, v := range []int{0x00, 0x41, 0xFF} {
+						for _, at := range []int{chunk - 1, chunk} {
+							for _, h := range []string{"16sym", "256flat"} {
+								emit(entCase{Codec: codec, Len: 2*chunk + 7, Hist: h, Arr: "inter", Poke: v + 1, PokeAt: at})
+							}
+						}
+					}
+				}
 				hists := []string{"1sym", "2sym", "16sym", "255flat", "256flat", "geo", "fib"}
 				arrs := []string{"sorted", "inter", "rev"}
 				for _, n := range lens {
@@ -218,6 +237,15 @@ func init() {
 					for _, d := range []int{1, 2, 3, 4, 5, 32, 33} {
 						for _, h := range pick(c, []string{"16sym"}, []string{"16sym", "geo", "256flat"}) {
 							emit(entCase{Codec: codec, Len: 4<<20 + d, Hist: h, Arr: "inter"})
+						}
+					}
+					// content at the 4 MiB chunk boundary: the last byte of the first chunk and the first
+					// byte of the second take every value class of the order-1 / 2-bit contexts
+					for _, d := range pick(c, []int{4099}, []int{1, 4099, 70000}) {
+						for _, v := range []int{0x00, 0x3F, 0x40, 0x7F, 0x80, 0xC3, 0xFF} {
+							for _, at := range []int{4<<20 - 1, 4 << 20} {
+								emit(entCase{Codec: codec, Len: 4<<20 + d, Hist: "256flat", Arr: "inter", Poke: v + 1, PokeAt: at})
+							}
 						}
 					}
 				}
